@@ -7,7 +7,10 @@ src = sys.argv[5] if len(sys.argv) > 5 else f"/tmp/seed-out/{sid}"; dst = f"/ver
 os.makedirs(dst, exist_ok=True)
 for f in glob.glob(src + "/*"):
     b = os.path.basename(f)
-    if b.endswith(".log") or os.path.isdir(f):
+    if b.endswith(".log"):
+        continue
+    if os.path.isdir(f):
+        shutil.copytree(f, os.path.join(dst, b), dirs_exist_ok=True)  # helper programs of a demo (e.g. crashat/)
         continue
     shutil.copy(f, dst)
 meta = json.load(open(src + "/meta.json"))
